@@ -132,10 +132,6 @@ end
 
 /-! ### the guard of the native round trip -/
 
-def distinctKeys : List String → Bool
-  | [] => true
-  | k :: ks => !ks.contains k && distinctKeys ks
-
 mutual
 /-- no `false`, no empty array, no empty object anywhere (root included), object keys unique -/
 def Faithful : J → Bool
